@@ -685,6 +685,12 @@ class Master(loader.Loader):
             _LOGGER.warning('Server not found: %s', servername)
             return
 
+        if server.state is scheduler.State.down:
+            # Apps on a server that is down are kept for their data retention
+            # timeout only, frozen they would stay on a dead server forever.
+            _LOGGER.warning('Server is down, not freezing: %s', servername)
+            return
+
         for appname in apps or []:
             app = server.apps.get(appname)
             if not app:
